@@ -171,7 +171,7 @@ def explore_program(case, rng, ntimes, res):
             raise Bad("not-tight", "fault-free: %s finished with the interval %r (width above the convergence threshold)" % (name, v))
     res["probes"]["fault_free_ok"] += 1
     # 1b. caller-supplied convergence thresholds: an interval may be returned early, but it must contain p, and a single value must be exact
-    for conv in (0.05, 0.3):
+    for conv in ((0.05, 0.3) if int(dig[:2], 16) % 2 == 0 else ()):
         oc = run_kbest(text, convergence=conv)
         res["evaluations"] += 1
         if oc["kind"] == "ok":
@@ -258,7 +258,7 @@ def case_for(seed, i):
 
 
 def shards(tier, seed, scale=1.0):
-    nsh, per, nt = {"quick": (16, 30, 6), "thorough": (32, 250, 16)}[tier]
+    nsh, per, nt = {"quick": (16, 16, 5), "thorough": (32, 200, 14)}[tier]
     per = max(1, int(per * scale))
     return [{"name": "kb-%d" % s, "seed": sub(seed, ID, s), "programs": per, "ntimes": nt, "wall_limit_s": WALL_S[tier]} for s in range(nsh)]
 
